@@ -104,6 +104,8 @@ ReqOps ==
   \* the same requests through the `const char*` (string literal) overloads of the key API, and for the prefix-related key
   \cup { [op |-> "req", ks |-> k, t |-> "i32", kc |-> TRUE] : k \in {Ka, Kaa} }
   \cup { [op |-> "req", ks |-> Kaa, t |-> "i32"] }
+  \* XML: attributes requested from an element that has none (absent: not loaded, the target keeps its value)
+  \cup (IF Arch = "xml" THEN { [op |-> "attr", ks |-> k, t |-> t] : k \in {Ka, Kz}, t \in {"bool", "i32", "str"} } ELSE {})
   \cup { [op |-> "obj", ks |-> Ka, ops |-> o] : o \in { <<>>, <<[op |-> "req", ks |-> <<109>>, t |-> "str"]>>,
                                                        <<[op |-> "req", ks |-> <<109>>, t |-> "str"], [op |-> "req", ks |-> <<110>>, t |-> "i32"]>> } }
   \cup { [op |-> "arr", ks |-> Ka, ops |-> o] : o \in { <<>>, <<[op |-> "elem", t |-> "i32"]>>,
